@@ -608,6 +608,9 @@ fn real_sampler_failures<K: Kit>(kit: &'static str, spec: &Spec, rep: &mut Repor
                         rep.violate(format!("C08|{name}|fault-panic|library-sampler-error|{file}"), format!("{class}: the space's own sampler cannot deliver and a planner call unwound instead of returning an error: {msg}"), || json!({"kind": "real-sampler-failure", "prop": "C08", "space": spec.json(), "planner": name, "goal_bias": bias, "seed": seed, "panic": msg}));
                     }
                     Err(Caught::WorkCap(n)) => rep.violate(format!("C08|{name}|call-does-not-return|library-sampler-error"), format!("{class}: a planner call made {n} callbacks without returning"), || json!({"kind": "real-sampler-failure", "prop": "C08", "space": spec.json(), "planner": name, "goal_bias": bias, "seed": seed})),
+                    // the validity seam was handed a state of another shape than the space's states have (a compound with
+                    // a component missing): only the planner can have passed it on, from a sampler that should have failed
+                    Err(Caught::Harness(m)) if m.contains("spec/value mismatch") => rep.violate(format!("C08|{name}|fault-swallowed|library-sampler-error|malformed-state"), format!("{class}: instead of an error the sampler delivered a state of the wrong shape, and the planner handed it to the validity checker ({m})"), || json!({"kind": "real-sampler-failure", "prop": "C08", "space": spec.json(), "planner": name, "goal_bias": bias, "seed": seed})),
                     Err(Caught::Harness(m)) => rep.engine_error(format!("harness panic in real-sampler-failure case {class}/{name}: {m}")),
                     Err(_) => rep.engine_error(format!("real-sampler-failure case {class}/{name} could not run")),
                     Ok(results) => {
